@@ -1123,10 +1123,12 @@ class _TftpReadRequest:
         if time_remaining > 0.0:
             self._socket.settimeout(time_remaining)
         else:
-            # If no time is remaining, we set the socket timeout to 1 ms. If we
-            # set it to 0, we would switch the socket into the non-blocking
-            # mode, which would have undesired side effects.
-            self._socket.settimeout(0.001)
+            # If no time is remaining, the timeout has expired. We must not try
+            # to receive another packet in this case: If we did, a continuous
+            # stream of unexpected packets (each of them arriving before the
+            # socket timeout expires) could postpone the retransmission or the
+            # end of the transfer indefinitely.
+            raise socket.timeout()
 
 
 # We use this regular expression to verify that an option that must be a
